@@ -7,7 +7,7 @@ def gen(rng, tier):
     quick = tier == "quick"
     n = 9000 if quick else 300000
     for _ in range(n):
-        yield srvgen.gen_case(rng, loaded=True, mutate_p=0.5)
+        yield srvgen.gen_case(rng, loaded=True, mutate_p=0.5, clean_p=0.3)
     # every truncation prefix of well-formed requests
     for _ in range(30 if quick else 2000):
         cat, names = srvgen.gen_catalog(rng, True)
